@@ -268,6 +268,7 @@ func handleLRem(params internal.HandlerFuncParams) ([]byte, error) {
 			if list[i] == value {
 				list = append(list[:i], list[i+1:]...)
 				absoluteCount += 1
+				i--
 			}
 		}
 	case count > 0:
@@ -279,6 +280,7 @@ func handleLRem(params internal.HandlerFuncParams) ([]byte, error) {
 			if list[i] == value {
 				list = append(list[:i], list[i+1:]...)
 				absoluteCount -= 1
+				i--
 			}
 		}
 	case count < 0:
